@@ -533,6 +533,15 @@ def build(m: GModel):
 def corpus():
     """hand-written models that run first on every check: minimised past misses and the structures seeded changes need"""
     C = []
+    # an index-1 DAE whose Odes are declared after the algebraic equation and in another order than their variables: the ones of
+    # the mass matrix are off the diagonal (x, w states; z algebraic); small and large coefficients (1e-9, 1e12) in linear terms
+    C.append(GModel("DAE", [("x", [0.8], None), ("w", [0.3], None), ("z", [0.24], None)], [("k", "plain", dict(value=[0.5]))],
+                    [("g", "alg", ("sub", ("var", 2, ("w",)), ("mul", ("var", 0, ("w",)), ("var", 1, ("w",)))), None),
+                     ("fw", "ode", ("add", ("neg", ("mul", ("par", 0, ("w",)), ("var", 1, ("w",)))), ("mul", ("num", 1e-9), ("var", 0, ("w",)))), (1, ("w",))),
+                     ("fx", "ode", ("sub", ("var", 2, ("w",)), ("mul", ("num", 2.0), ("var", 0, ("w",)))), (0, ("w",)))]))
+    C.append(GModel("AE", [("x", [0.7, 1.3], None), ("z", [0.4], None)], [],
+                    [("e0", "alg", ("sub", ("add", ("mul", ("num", 1e-9), ("var", 0, ("w",))), ("mul", ("num", 6.674e-11), ("var", 1, ("w",)))), ("num", 1e-9)), None),
+                     ("e1", "alg", ("sub", ("mul", ("num", 1e12), ("var", 1, ("w",))), ("mul", ("num", 3e-7), ("var", 0, ("i", 1)))), None)]))
     import math as _m
     # coefficients that are symbolic constants (pi, sqrt(2), E): their derivative blocks are constants without being Numbers
     C.append(GModel("AE", [("x", [0.7, 1.3], None), ("z", [0.4, 0.9], None)], [],
